@@ -146,8 +146,9 @@ def parseCase (line : String) : Option Case :=
 structure RunCfg where
   cc : CompileCfg := {}
   keySep : Bool := true
+  setSemantics : Bool := false
 
-def ecfg (rc : RunCfg) (c : Case) : ECfg := { nsIface := !c.nons, keySep := rc.keySep }
+def ecfg (rc : RunCfg) (c : Case) : ECfg := { nsIface := !c.nons, keySep := rc.keySep, setSemantics := rc.setSemantics }
 
 def compileCase (rc : RunCfg) (c : Case) (text : List Char) : Except CompileErr Plan :=
   compile rc.cc c.ns text
@@ -320,5 +321,6 @@ def main : IO Unit := do
     cc := { regexOk := fun _ => true,
             shortcutNeedsNodeTest := ← envFlag "XV_SHORTCUT_NODETEST" true,
             smartDescThroughFilter := ← envFlag "XV_SMARTDESC_THROUGH_FILTER" false },
-    keySep := ← envFlag "XV_KEYSEP" true }
+    keySep := ← envFlag "XV_KEYSEP" true,
+    setSemantics := ← envFlag "XV_SET_SEMANTICS" false }
   loop rc (← IO.getStdin) (← IO.getStdout)
